@@ -1,7 +1,7 @@
 (* Observations for the correspondence runs of the typed-value model (tools/c02_typed.py). *)
 From Coq Require Import List ZArith Bool.
 From Basyx Require Import model.Corr model.ConstraintsBase model.ConstraintsObs model.TypedBase gen.Gen_TypedValues
-  model.TypedValue.
+  model.TypedValue gen.Gen_TypedSetters model.TypedItems.
 Import ListNotations.
 Local Open Scope Z_scope.
 
@@ -69,3 +69,11 @@ Definition check_range_case (c : nat * option pyval * option pyval * list rop * 
 (* op constructors with class codes, for the generated case files *)
 Definition HT (t : option nat) : hop := HSetType (option_map cls_of_code t).
 Definition RT (t : nat) : rop := RSetType (cls_of_code t).
+
+(* items of a list of Properties / Ranges: re-typing histories *)
+Definition item_trace (is_range : bool) (vtle : pcls) (ty : option pcls) (a b : option pyval) (ts : list pcls) : list (list Z) :=
+  map (fun r => let '(e, (ty', a', b')) := r in enc_err e :: enc_ty ty' :: enc_val a' ++ enc_val b')
+      (item_run is_range vtle ty a b ts).
+Definition check_item_case (c : bool * nat * nat * option pyval * option pyval * list nat * Z) : bool :=
+  let '(is_range, vtle, t0, a, b, ts, expected) := c in
+  Z.eqb (hash_zll 0 (item_trace is_range (cls_of_code vtle) (Some (cls_of_code t0)) a b (map cls_of_code ts))) expected.
